@@ -126,6 +126,17 @@ cdef class LinearRegressorCriterion(CommonRegressorCriterion):
         if self.sample_pS == NULL:
             self.sample_pS = <float64_t*> calloc(self.nbvar, sizeof(float64_t))
 
+    def __reduce__(self):
+        """
+        The state is empty, the criterion is created again
+        with the same features when unpickled.
+        """
+        return (
+            self.__class__,
+            (self.n_outputs, np.asarray(self.sample_X)),
+            self.__getstate__(),
+        )
+
     def __deepcopy__(self, memo=None):
         """
         This does not a copy but mostly creates a new instance
